@@ -65,6 +65,35 @@ class Fut:
         return "<Fut>"
 
 
+class GenLike:
+    """non-frame leaf with the whole generator protocol (send / throw / close), as future-style awaitable iterators
+    have: it satisfies collections.abc.Generator structurally, but it has no frame"""
+
+    def __init__(self, n):
+        self.n = n
+
+    def __iter__(self):
+        return self
+
+    def __next__(self):
+        return self.send(None)
+
+    def send(self, value):
+        if self.n <= 0:
+            raise StopIteration
+        self.n -= 1
+        return "G"
+
+    def throw(self, typ, val=None, tb=None):
+        raise typ if val is None else val
+
+    def close(self):
+        self.n = 0
+
+    def __repr__(self):
+        return "<GenLike>"
+
+
 class FalsyIter:
     """non-frame leaf that is falsy (an iterator that knows it has nothing queued): still the leaf"""
 
@@ -116,7 +145,7 @@ class AwaitGen:
 
 
 def to_iter(aw):
-    if isinstance(aw, (types.GeneratorType, Fut, FalsyIter)) or type(aw).__name__ == "list_iterator":
+    if isinstance(aw, (types.GeneratorType, Fut, FalsyIter, GenLike)) or type(aw).__name__ == "list_iterator":
         return aw
     if hasattr(aw, "__await__"):
         return aw.__await__()
@@ -500,6 +529,12 @@ def end_aw(b):
         b.leaf = Fut()
         return b.leaf
 
+    if end == "genlike":
+        def mkg():
+            b.leaf = GenLike(n)
+            return b.leaf
+        return AwaitVia(mkg)
+
     if end == "falsyiter":
         def mkf():
             b.leaf = FalsyIter(n)
@@ -676,7 +711,8 @@ def run_c03(req):
             d.aw.throw(Probe())  # called here directly: exactly one harness frame precedes the chain
             exp = None
         except Probe as ex:
-            exp = tb_list(ex.__traceback__)[1:]
+            exp = [p for p in tb_list(ex.__traceback__)[1:] if p[0].f_code is not GenLike.throw.__code__]
+            # (the leaf's own Python-level throw() method is how the probe gets raised there, not a frame of the chain)
             ex.__traceback__ = None
         except BaseException as ex:
             return {"harness_error": "probe exception was transformed: %r (ir=%r)" % (ex, ir)}
